@@ -13,7 +13,7 @@ one() {
   rsync -a --exclude .git /repo/ $r/
   cp -r /verif/spec $v/; cp /verif/known_findings.json $v/
   if ! (cd $r && patch -s -p1 < /verif/seeded/$id/patch.diff); then echo "SEED $id: patch does not apply"; rm -rf $r $v; return; fi
-  out=$(TONGO_REPO=$r VERIF_DIR=$v /verif/bin/tongocheck -sweep 2>&1); rc=$?
+  out=$(TONGO_REPO=$r VERIF_DIR=$v ${TONGOCHECK_BIN:-/verif/bin/tongocheck} -sweep 2>&1); rc=$?
   rm -rf $r $v
   if [ $rc -ge 2 ]; then echo "SEED $id fired: (ERR$rc)"; return; fi
   fired=$(echo "$out" | awk '/^SWEEP / && $3 != "" {printf " %s[%s]", $2, $3}')
